@@ -131,6 +131,11 @@ def run(chk):
             ("pcap_stream", "1-byte-stdin", "pcap_stream(stdin)", {"stdin": b"\xd4"}),
             ("pcap_stream", "3-byte-stdin", "pcap_stream(stdin)", {"stdin": b"\xd4\xc3\xb2"}),
             ("pcap_stream", "magic-only-stdin", "pcap_stream(stdin)", {"stdin": b"\xd4\xc3\xb2\xa1"}),
+            # directories whose size reads as 0 (procfs, sysfs), memory files that cannot be read
+            ("read", "EISDIR-proc", "read(open(\"/proc\"))", {}), ("read", "EISDIR-sys", "read(open(\"/sys\"))", {}), ("read", "EISDIR-proc-self", "read(open(\"/proc/self\"))", {}),
+            ("read", "EISDIR-proc-n", "read(open(\"/proc\"), 10)", {}), ("read_line", "EISDIR-proc", "read_line(open(\"/proc\"))", {}),
+            ("read_to_string", "EISDIR-sys", "read_to_string(open(\"/sys\"))", {}), ("read", "EIO-proc-self-mem", "read(open(\"/proc/self/mem\"))", {}),
+            ("read", "EIO-proc-self-mem-n", "read(open(\"/proc/self/mem\"), 16)", {}),
             ("pcap_write", "ENOSPC-big", "pcap_write(pw, bigp)", {"pre": "let pw = pcap_open(\"/dev/full\", \"w\"); let bigp = pcap_read_next(pcap_open(%s));" % lit(os.path.join(work, "bigrec.pcap"))}),
             # a pipe whose reader is gone (EPIPE; SIGPIPE is ignored by the Rust runtime, so the write itself fails)
             ("write", "EPIPE-stdout-big", "write(stdout, %s)" % big, {"stdout": "epipe"}),
@@ -139,6 +144,11 @@ def run(chk):
             ("pcap_write", "EPIPE-stdout-big", "pcap_write(ps, bigp)", {"stdout": "epipe", "pre": "let ps = pcap_stream(stdout); let bigp = pcap_read_next(pcap_open(%s));" % lit(os.path.join(work, "bigrec.pcap"))}),
             ("pcap_write", "EPIPE-stdout-many-small", "wr_many()", {"stdout": "epipe", "pre": "let ps = pcap_stream(stdout); let sp = pcap_read_next(pcap_open(%s)); fn wr_many() { let i = 0; let r = null; while i < 400 { r = pcap_write(ps, sp); if is_error(r) { return r; } i = i + 1; } return r; }" % lit(good)}),
             ("open", "EACCES-r", "open(%s)" % lit(secret), {"uid": "nobody"}),
+        ]
+        M += [("pcap_open", "utf8-text-" + nm[4:], "pcap_open(%s)" % lit(os.path.join(work, nm)), {}) for nm in
+              ["txt-%d-%d" % (off, w) for off in range(0, 26) for w in (2, 3, 4)][::(3 if quick else 1)]]
+        M += [("pcap_stream", "utf8-text-stdin-%d" % off, "pcap_stream(stdin)", {"stdin": ("x" * off + "\u00e9\u65e5\U0001f496" * 3 + " et la suite du texte").encode("utf-8")}) for off in range(10, 24, (4 if quick else 1))]
+        M += [
             ("open", "EACCES-w", "open(%s, \"w\")" % lit(secret), {"uid": "nobody"}),
             ("open", "EACCES-a", "open(%s, \"a\")" % lit(secret), {"uid": "nobody"}),
             ("open", "EACCES-create", "open(%s, \"w\")" % lit(os.path.join(rodir, "new.txt")), {"uid": "nobody"}),
@@ -150,6 +160,13 @@ def run(chk):
         for nm, nbytes in (("stub1", 1), ("stub2", 2), ("stub3", 3), ("stub4", 4), ("stub23", 23)):
             open(os.path.join(work, nm), "wb").write(pkt.pcap_header()[:nbytes])
         open(os.path.join(work, "stubm"), "wb").write(b"\xd4\xc3\xb2\xa1")
+        texts = []
+        for off in range(0, 26):
+            for ch in ("\u00e9", "\u65e5", "\U0001f496"):
+                t = ("# captures du reseau local, table des flux"[:off].ljust(off, "x") + ch * 4 + " suite du texte, assez longue pour un en-tete complet").encode("utf-8")
+                nm = "txt-%d-%d" % (off, len(ch.encode("utf-8")))
+                open(os.path.join(work, nm), "wb").write(t)
+                texts.append(nm)
         # healthy calls that must NOT be error objects (guards against "everything is an error")
         H = [
             ("open", "healthy", "open(%s)" % lit(existing), {}),
